@@ -18,4 +18,7 @@ MC_SyncAsync == {TRUE, FALSE}
 (* behaviour emission for replay: every completed behaviour is printed once       *)
 Emit == (AllDone /\ hist # <<>> /\ \E o \in Ops : ops[o].st = "done") => PrintT(<<"CASE", ToJson(hist)>>)
 DepthBound == TLCGet("level") <= 14
+MC_L0now == {2}
+(* restriction used to enumerate *every* interleaving of concurrent unprotect calls on one triple *)
+OnlyConcurrentUnprotects == loaded = {} /\ \A o \in Ops : ops[o].kind \in {"-", "unprotect"}
 =============================================================================
